@@ -198,7 +198,11 @@ def do_prog(script):
     return {"status": "ok", "obs": out}
 
 
-def do_pyobs(script, inputs):
+class _StopLoops(BaseException):
+    pass
+
+
+def do_pyobs(script, inputs, loops=0):
     """CPython meaning of the script: serial writes, flash patterns and glyph bitmaps, in order.
     inputs: {"dr": {pin: [..]}, "ar": {pin: [..]}} (the last value repeats)"""
     import os
@@ -206,7 +210,7 @@ def do_pyobs(script, inputs):
     pid = os.fork()
     if pid == 0:
         os.close(r)
-        res = _pyobs_child(script, inputs)
+        res = _pyobs_child(script, inputs, loops)
         with os.fdopen(w, "w") as f:
             json.dump(res, f)
         os._exit(0)
@@ -220,7 +224,7 @@ def do_pyobs(script, inputs):
         return {"obs": [], "exc": "Crash"}
 
 
-def _pyobs_child(script, inputs):
+def _pyobs_child(script, inputs, loops=0):
     import signal
     signal.alarm(10)
     obs = []
@@ -254,7 +258,21 @@ def _pyobs_child(script, inputs):
         except Exception:  # noqa
             pass
         sys.stdout = open("/dev/null", "w")
-        exec(compile(script, "<script>", "exec"), {"__name__": "__main__"})
+        tree = ast.parse(script)
+        passes = {"k": 0}
+
+        def __verif_pass():
+            if passes["k"] >= loops:
+                raise _StopLoops()
+            passes["k"] += 1
+        for node in tree.body:          # cut the top-level `while True:` after `loops` passes (harness copy only)
+            if isinstance(node, ast.While) and isinstance(node.test, ast.Constant) and node.test.value is True:
+                node.body.insert(0, ast.Expr(ast.Call(ast.Name("__verif_pass", ast.Load()), [], [])))
+        ast.fix_missing_locations(tree)
+        try:
+            exec(compile(tree, "<script>", "exec"), {"__name__": "__main__", "__verif_pass": __verif_pass})
+        except _StopLoops:
+            pass
         return {"obs": obs, "exc": None, "reads": {f"{k[0]}{k[1]}": v for k, v in idx.items()}}
     except BaseException as e:  # noqa
         return {"obs": obs, "exc": type(e).__name__, "msg": str(e)[:200]}
@@ -271,7 +289,7 @@ def main():
         elif c[0] == "prog":
             out.append(do_prog(c[1]))
         elif c[0] == "pyobs":
-            out.append(do_pyobs(c[1], c[2]))
+            out.append(do_pyobs(c[1], c[2], c[3] if len(c) > 3 else 0))
         elif c[0] == "tables":
             out.append({"safe_casts": list(P._SAFE_CASTS), "safe_names": sorted(P._SAFE_NAME_REFERENCES)})
     json.dump(out, sys.stdout)
